@@ -30,17 +30,18 @@ RULE = ("programs as in C01 with cleanups registered in setUp (before/after the 
         "cleanups (depth <= 3), patches of existing (values incl. None) and missing attributes of a scratch object, fixtures (new and old "
         "style, failing set-up, failing cleanups), each run twice on one instance; exhaustive: every assignment of 10 "
         "behaviours to setUp/test/tearDown/cleanup over 4 registration sites; non-trivial = a nested cleanup, or a "
-        "patch/fixture together with a raising statement, or at least 2 raising statements; distinct = distinct JSON")
+        "patch/fixture together with a raising statement, or at least 2 raising statements; distinct = distinct JSON; plus fixtures one of whose details cannot be evaluated when it is gathered (set-up ok / failing old and new style), @unittest.expectedFailure tests ending in every behaviour, force_failure set on the failed-setUp path, and - sampled outside the Coq model - an addOnException handler that raises while the exception of the test method / tearDown is processed")
 TRUSTED = ["fixtures.Fixture setUp/cleanUp (fixtures 4.3.2) is modelled, not verified",
            "the scratch object's __setattr__/__delattr__ log is the observation device for patch undo actions"]
-ASSUMPTIONS = ["the result object and addOnException handlers do not raise",
+ASSUMPTIONS = ["the result object does not raise; addOnException handlers do not raise (theorems); sampled beyond "
+               "that: a handler raising while the exception of the test method or tearDown is processed",
                "patched attributes are changed only through patch()",
                "fixtures raise single exceptions; new-style _setUp and fixture cleanups raise Exception-derived ones"]
 EXPLANATION = ("Theorems in coq/Props/C02.v over all programs; correspondence: two run() calls on one generated "
                "testtools.TestCase instance, compared with coq/Model/Run.v on the execution log, len(_cleanups), "
                "vars() of the patched object and on whether the second run repeats the outcome of the first.")
 
-FEATS = frozenset(["patch", "fixture", "details", "onexc"])
+FEATS = frozenset(["patch", "fixture", "details", "onexc", "badfx"])
 
 
 def _num(v):
@@ -61,8 +62,32 @@ def t_run(o):
                      ("r_attrs", R.t_attrs(o["attrs"])), ("r_outs", q.lst([R.COQ_OUT[k] for k in o["outs"]]))])
 
 
+def _without_raising_handlers(p):
+    """The Coq input of a program with "onexcraise" statements: the statements are left out.  The model and
+    C02_holds do not cover handlers that raise; the statement's own reading of the program (expected_log: which
+    bodies and undo actions run, in which order) does not depend on them, and Corr.C02.alpha does not look at the
+    outcome or at what run() lets out, so model and unchanged implementation still agree on these cases."""
+    def go(acts):
+        return [["cleanup", a[1], go(a[2])] if a[0] == "cleanup" else a for a in acts if a[0] != "onexcraise"]
+    p = dict(p)
+    for k in ("setup", "body", "teardown"):
+        p[k] = dict(p[k], acts=go(p[k]["acts"]))
+    return p
+
+
+def with_raising_handler(p, where):
+    """setUp first registers a handler that raises when an exception of class MARKER is processed; the test
+    method and/or tearDown end by raising MARKER (only there: a handler raising while setUp's or a cleanup's
+    exception is processed leaves cleanups unrun on the unchanged code - outside this sampled extension)."""
+    p = dict(p)
+    p["setup"] = dict(p["setup"], acts=[["onexcraise", R.MARKER]] + p["setup"]["acts"])
+    for k in where:
+        p[k] = dict(p[k], acts=p[k]["acts"] + [["raise", R.E(R.MARKER)]])
+    return p
+
+
 def term(case, o):
-    i = q.record([("i_prog", R.t_prog(case["prog"])), ("i_attrs", R.t_attrs(case["attrs"]))])
+    i = q.record([("i_prog", R.t_prog(_without_raising_handlers(case["prog"]))), ("i_attrs", R.t_attrs(case["attrs"]))])
     return q.pair(i, q.record([("o_first", t_run(o[0])), ("o_second", t_run(o[1]))]))
 
 
@@ -132,6 +157,25 @@ def generate(rng, tier):
     # force_failure set in setUp / in a cleanup, setUp ending in every behaviour (fix 889980a): both runs
     for k, (p, _) in enumerate(R.setup_force_programs()):
         cases.append({"prog": p, "attrs": []})
+    # fixtures with a detail that cannot be evaluated when it is gathered
+    for k, (p, _) in enumerate(R.badfx_programs()):
+        cases.append({"prog": p, "attrs": [[0, 1]] if k % 2 else []})
+    for k, (p, _) in enumerate(R.xfail_programs()):
+        if tier == "thorough" or k % 3 == 0:
+            cases.append({"prog": p, "attrs": []})
+    # sampled extension (not in the Coq model): an addOnException handler raises while the exception of the test
+    # method / tearDown is processed; tearDown and every cleanup still have to run, nothing may be left
+    hr = [R.mkprog(setup=[["patch", 0, 5], ["cleanup", 10, []]], body=[["cleanup", 11, [["patch", 1, 6]]]]),
+          R.mkprog(setup=[["cleanup", 10, [["raise", E("ValueError")]]]], teardown=[["patch", 0, 5]]),
+          fixed[2], fixed[5]]
+    for k, p in enumerate(hr):
+        for where in (["body"], ["teardown"], ["body", "teardown"]):
+            cases.append({"prog": with_raising_handler(p, where), "attrs": [[0, 1]] if k % 2 else []})
+    r3 = __import__("random").Random(rng.random())
+    for _ in range(300 if tier == "quick" else 6000):
+        p = R.rand_prog(r3, feats=FEATS, p_raise=r3.choice([0.0, 0.3, 0.5]))
+        cases.append({"prog": with_raising_handler(p, r3.choice([["body"], ["teardown"], ["body", "teardown"]])),
+                      "attrs": rand_attrs(r3)})
     combos = list(itertools.product(list(R.BEHAVIOURS), repeat=4))
     stride = 1 if tier == "thorough" else 16
     off = rng.randrange(stride)
